@@ -393,3 +393,45 @@ Proof.
   destruct (set_length (u64_of_int len)) as [lc ext]. change (2 ^ 8)%N with 256%N.
   destruct server; cbn [app hd]; destruct fin, compress; cbn zeta; lia.
 Qed.
+
+(* ---- limitedReader.Read (compress.go): the accumulated count, the comparison with the limit, the error returned ---- *)
+From Gws Require Import Model.LimitReader Model.Queue.
+
+Lemma gen_limitedReader_Read_is cN cM n err p :
+  gf_gws_limitedReader_Read cM cN err n p = lr_read cN cM n err.
+Proof. reflexivity. Qed.
+
+(* the copy loop of Decompress written with the regenerated Read *)
+Fixpoint lr_copy_src (cN cM : Z) (reads : list (list N * Z)) (acc : list N) : option (list N) :=
+  match reads with
+  | [] => None
+  | (p, err) :: r =>
+      let '(n, e, cN') := gf_gws_limitedReader_Read cM cN err (Z.of_nat (length p)) 0 in
+      let acc' := acc ++ p in
+      if e =? 0 then lr_copy_src cN' cM r acc' else if e =? err_eof then Some acc' else None
+  end.
+
+Lemma limit_copy_from_source : forall reads cN cM acc, lr_copy_src cN cM reads acc = lr_copy cN cM reads acc.
+Proof.
+  induction reads as [|[p err] r IH]; intros cN cM acc; cbn [lr_copy_src lr_copy]; [reflexivity|].
+  rewrite gen_limitedReader_Read_is. destruct (lr_read cN cM (Z.of_nat (length p)) err) as [[n e] cN'].
+  rewrite IH. reflexivity.
+Qed.
+
+(* ---- workerQueue.getJob (task.go): the counter arithmetic and the order of the three tests.  Tasks are numbered from 0
+   in the model; the Go value is a non-nil func, encoded as task + 1 (0 = nil). *)
+Definition job_code (o : option nat) : Z := match o with Some j => Z.of_nat (S j) | None => 0 end.
+
+Lemma gen_getJob_is st new delta :
+  let q1 := match new with Some t => wq_q st ++ [t] | None => wq_q st end in
+  gf_gws_workerQueue_getJob (wq_cur st) (wq_max st) (job_code (hd_error q1)) (job_code new) delta
+  = (job_code (snd (get_job st new delta)), wq_cur (fst (get_job st new delta))).
+Proof.
+  unfold gf_gws_workerQueue_getJob, get_job. cbv zeta.
+  assert (Hnz : forall o, (job_code o =? 0) = match o with Some _ => false | None => true end)
+    by (intros [j|]; unfold job_code; [apply Z.eqb_neq; lia|reflexivity]).
+  set (q1 := match new with Some t => wq_q st ++ [t] | None => wq_q st end).
+  destruct (negb (job_code new =? 0));
+    (destruct (wq_cur st + delta >=? wq_max st); [reflexivity|];
+     rewrite Hnz; destruct q1 as [|j q2]; reflexivity).
+Qed.
